@@ -21,9 +21,6 @@ Proof.
   apply ntake_some in Eb as [-> Lb]. rewrite !lenN_app. lia.
 Qed.
 
-Lemma S_ALL_value : S_ALL + MAX_BODY_PREALLOCATION <= ALLOC_C.
-Proof. vm_compute. discriminate. Qed.
-
 Section Decode.
 Variable decompress : bytes -> option bytes.
 (* how much the negotiated codec may expand a body (1 without compression) *)
@@ -36,7 +33,8 @@ Lemma decode_costs ft v2 cmp stream :
   c_depth (snd (decode decompress ft v2 cmp stream)) <= DEPTH_LIMIT.
 Proof.
   unfold decode, decode_frame, alloc_bound, ALLOC_K.
-  pose proof (read_frame_cost stream) as (FA & FD & FB). pose proof S_ALL_value as SV.
+  pose proof (read_frame_cost stream) as (FA & FD & FB). pose proof KERR_value as KV.
+  unfold ALLOC_C, MAX_BODY_PREALLOCATION in *.
   assert (L0 : lenN stream <= R * lenN stream) by nia.
   destruct (read_frame stream) as [[[[h body] rest]|e] c]; cbn [fst snd] in *;
     [|unfold DEPTH_LIMIT; split; lia].
@@ -51,11 +49,11 @@ Proof.
   destruct bd' as [bd|e]; cbn [snd]; [|unfold DEPTH_LIMIT; split; lia].
   pose proof (AB_deser_extensions (h_flags h) bd) as X.
   destruct (deser_extensions (h_flags h) bd) as [[[x bd1]|e1] c1]; cbn [snd cadd c_alloc c_depth].
-  2:{ unfold KERR in X. split; lia. }
+  2:{ rewrite KV in X. unfold MAX_BODY_PREALLOCATION, ALLOC_C in *. split; lia. }
   pose proof (AB_deser_response parse_custom parse_custom_depth ft v2 (h_opcode h) bd1) as Y.
   assert (lenN bd1 <= lenN bd) by (unfold KOK in X; lia).
   destruct (deser_response parse_custom ft v2 (h_opcode h) bd1) as [[[rr bd2]|e2] c2];
-    cbn [snd cadd c_alloc c_depth]; unfold KERR, KOK in *; split; lia.
+    cbn [snd cadd c_alloc c_depth]; try rewrite KV in Y; unfold KOK, MAX_BODY_PREALLOCATION, ALLOC_C in *; split; lia.
 Qed.
 
 Lemma decode_alloc_bound ft v2 cmp stream :
